@@ -17,10 +17,10 @@ PROP = "C09"
 PROP_FILE = "GateryModel/Properties/C09.lean"
 PROP_MODULE = "GateryModel.Properties.C09"
 STREAMS = {
-    "quick": [[1200, 150, "ops"], [120, 400, "ops"], [200, 20, "design"], [20, 45, "design"]],
-    "thorough": [[4000, 150, "ops"], [400, 600, "ops"], [900, 20, "design"], [150, 45, "design"]],
+    "quick": [[1200, 150, "ops"], [120, 400, "ops"], [160, 20, "design"], [16, 45, "design"]],
+    "thorough": [[4000, 150, "ops"], [400, 600, "ops"], [700, 20, "design"], [100, 45, "design"]],
 }
-ASAN_STREAMS = [[600, 150, "ops"], [60, 600, "ops"], [250, 20, "design"], [40, 45, "design"]]
+ASAN_STREAMS = [[600, 150, "ops"], [60, 600, "ops"], [200, 20, "design"], [30, 45, "design"]]
 SEARCH = [[3000, 200, "ops"], [300, 25, "design"]]
 TRUSTED = ["Lean 4.33 kernel", "axioms: propext, Classical.choice, Quot.sound only (audited per theorem)",
            "harness/c09.cpp (graph dump through the public hlim API; pointer -> handle maps) + Driver/C09.lean (dump parser, checked by a "
@@ -62,7 +62,9 @@ class TStream:
         os.makedirs(os.path.dirname(self.keep), exist_ok=True)
         self.timed_out, self.stalled_retry, self.diag = False, None, {}
         with tempfile.TemporaryFile() as errf:
-            h = subprocess.Popen([harness] + self.args, stdout=subprocess.PIPE, stderr=errf)
+            henv = dict(os.environ)
+            henv.setdefault("MALLOC_PERTURB_", "165")   # glibc poisons freed memory: a stale read crashes instead of passing silently
+            h = subprocess.Popen([harness] + self.args, stdout=subprocess.PIPE, stderr=errf, env=henv)
             tee = subprocess.Popen(["tee", self.keep], stdin=h.stdout, stdout=subprocess.PIPE)
             h.stdout.close()
             d = subprocess.Popen([driver], stdin=tee.stdout, stdout=subprocess.PIPE, stderr=subprocess.STDOUT, text=True)
@@ -110,16 +112,18 @@ def ops_prefix(case_lines, step):
     return ops, dump
 
 
-def last_case(keep):
-    cid = None
+def last_case(keep, full=False):
+    cid, header, at = None, "", ""
     try:
         with open(keep, errors="replace") as f:
             for l in f:
                 if l.startswith("case "):
-                    cid = l.split()[1]
+                    cid, header, at = l.split()[1], l.strip(), ""
+                elif l.startswith("at ") or l.startswith("op "):
+                    at = l.strip()
     except OSError:
         pass
-    return cid
+    return (cid, header, at) if full else cid
 
 
 def signature(msg):
@@ -261,7 +265,7 @@ def main():
             continue   # twice timed out with an idle harness: says nothing about the code; reported below as "check could not run"
         if s.hrc != 0:
             # the real code crashed (sanitizer abort / signal / exit(1)) on a generated case: concrete failing input
-            cid = last_case(s.keep)
+            cid, header, at = last_case(s.keep, True)
             first = next((l for l in s.herr.splitlines() if "ERROR" in l or "runtime error" in l or "Assertion" in l), s.herr[:300])
             sig = "crash:" + re.sub(r"0x[0-9a-f]+", "ADDR", first)[:160]
             if sig in reported:
@@ -269,7 +273,8 @@ def main():
             reported.add(sig)
             chk.violation("crash-" + tag, {"what": "the harness running the real code %s on a generated case" %
                                            ("was stopped by the sanitizer" if tag.startswith("asan") else "crashed"),
-                                           "first_report": first, "stderr_tail": s.herr, "harness_rc": s.hrc, "timeout_diagnostics": s.diag, "harness_args": s.args, "case": cid,
+                                           "first_report": first, "stderr_tail": s.herr, "harness_rc": s.hrc, "case_header": header,
+                                           "last_completed_step_before_the_crash": at, "timeout_diagnostics": s.diag, "harness_args": s.args, "case": cid,
                                            "replay_cmd": "%s %s %s" % (s.harness, " ".join(s.args), cid)}, True, signature=sig)
     if not chk.violations and not chk.known_hits and broken:
         what = []
@@ -307,7 +312,10 @@ def main():
                 "copyClocks, destruction of clocks that nodes are attached to, 4 teardown orders) on <=34 live hlim nodes of 9 classes (every operation's full graph dump compared "
                 "with the model and checked with Inv); non-trivial = every operation other than node creation. design streams: random frontend designs "
                 "(20..45 statements, ~200..600 nodes: arithmetic/logic/compare/mux/slices/shifts/registers/IF-ELSE/areas/memories) dumped after construction "
-                "steps and at every pass boundary of 6 post-processing variants; each dump evaluated with Inv + every-node-grouped + type/width agreement.",
+                "steps and at every pass boundary of 6 post-processing variants; 2/3 of the designs contain zero-width signals (1/3: 30..200 zero-width statements: 0-bit pins, "
+                "slices, constants, concatenations, registers, muxes, compares, extensions into wider logic, 0-bit output pins); in 3/4 of the designs the spare capacity of "
+                "Circuit::m_nodes is cut to 0..5 before every pass so that node-creating passes reallocate the vector inside the pass (SUMMARY.realloc_inside_pass); harness "
+                "runs with MALLOC_PERTURB_ (freed memory poisoned); each dump evaluated with Inv + every-node-grouped + type/width agreement.",
         "samples": ev_samples or ["(no stream ran)"],
         "traces_validated_against_impl": int(total.get("dumps", 0) or 0),
         "sanitizer_exploration": san,
